@@ -306,6 +306,32 @@ func c01ConstProtocol(c *Ctx, r *Report, rule string, m *ssa.Function) {
 		}
 		bad = fmt.Sprintf("write at %s stores %s into bytes %d..%d", w.pos, describeAV(w.val), lo, hi-1)
 	}
+	// the transaction id on the wire is the struct's transaction id for any struct contents (a
+	// parsed request is re-encoded with the id it carried, including 0)
+	if tv, _, okF := findField(an.u, recv, tn, "TransactionID", 0); okF {
+		if want, isI := tv.(AInt); isI {
+			okT := false
+			why := "no write covers bytes 0..1"
+			for _, w := range res.root.writes {
+				if !w.off.isConst() || !w.width.isConst() || w.off.c+w.width.c <= 0 || w.off.c >= 2 {
+					continue
+				}
+				v, isV := w.val.(AInt)
+				if w.off.c == 0 && w.width.c == 2 && w.kind == wBEn && isV && len(v.conds) == 0 && v.a.equal(want.a) {
+					okT = true
+				} else {
+					why = fmt.Sprintf("write at %s stores %s into bytes 0..1", w.pos, describeAV(w.val))
+					okT = false
+					break
+				}
+			}
+			if okT {
+				r.ok(rule, id, "transaction id bytes 0..1 are the struct's TransactionID, big-endian, for any struct contents", pos, true)
+			} else {
+				r.fail(rule, id, "the transaction id on the wire is not always the struct's TransactionID", pos, why, "transaction-id-not-field")
+			}
+		}
+	}
 	if bad == "" && covered > 0 {
 		r.ok(rule, id, "protocol identifier bytes 2..3 are the constant 0 whatever the struct's (exported) fields hold", pos, true)
 	} else {
